@@ -679,8 +679,9 @@ func (v *Visitor) visit(s *df.AnalyzerState, entrypoint *df.CallNodeArg) error {
 					if f == nil {
 						panic(fmt.Errorf("closure's parent function does not exist for free variable: %v", graphNode))
 					}
-					summary := df.BuildSummary(s, f)
-					v.onDemandIntraProcedural(s, summary)
+					// BuildSummary constructs the summary if it is not constructed yet. A constructed summary must not be
+					// analyzed again: it may come from a dataflow contract or a predefined summary.
+					df.BuildSummary(s, f)
 					// This is needed to get the referring make closures outside the function
 					s.FlowGraph.BuildGraph()
 				}
